@@ -218,11 +218,14 @@ def tlc(module, cfg, workers=None, timeout=600, simulate=None, depth=None, seed=
     Lines printed by PrintT(<<"EDGE", json>>) are collected (parsed JSON) in .edges."""
     os.makedirs(BUILD, exist_ok=True)
     meta = os.path.join(BUILD, "tlc_%s_%d_%d" % (os.path.basename(cfg).replace(".cfg", ""), os.getpid(), int(time.time() * 1000) % 100000))
-    jopts = ["-XX:+UseParallelGC", "-Xmx" + xmx, "-Xss32m"]
+    if (workers or NCPU) == 1:
+        # trace validation: many of these run side by side; the serial collector keeps the resident set near the live data
+        # (the parallel collector let each JVM grow to 2-3 GB, and a dozen of them per check exhausted the machine)
+        jopts = ["-XX:+UseSerialGC", "-Xms64m", "-Xmx" + xmx, "-Xss32m", "-XX:MaxHeapFreeRatio=30", "-XX:MinHeapFreeRatio=10"]
+    else:
+        jopts = ["-XX:+UseParallelGC", "-Xmx" + xmx, "-Xss32m"]
     if dfs:
         jopts.append("-Dtlc2.tool.queue.IStateQueue=StateDeque")
-    if (workers or NCPU) == 1:
-        jopts.append("-XX:ParallelGCThreads=2")
     cmd = ["java"] + jopts + ["-cp", TLA_JAR + ":" + TLA_DEPS, "tlc2.TLC", "-metadir", meta,
                              "-workers", str(workers or NCPU), "-config", cfg, "-noGenerateSpecTE"]
     if coverage:
